@@ -90,6 +90,7 @@ func genCase(t *rapid.T) Case {
 		}
 		c.Others = append(c.Others, ps)
 	}
+	c.TLS = rapid.IntRange(0, 7).Draw(t, "inside-tls") == 3
 	nd := rapid.IntRange(0, 6).Draw(t, "ndeclared")
 	c.Declared = []uint32{}
 	for i := 0; i < nd; i++ {
